@@ -46,6 +46,19 @@ BUILT = {
          "error class of the real operators vs model prechecks, structure of every returned circuit recomputed by Lean",
          "Theorems for all circuits/arguments; correspondence over a well-formed and a malformed stream.",
          "DESIGN.md 4/C09"),
+ "C05": ("Lean 4 proof (diff1_correct over MvPolynomial: the model of differentiate denotes the k-th partial "
+         "derivative for every smooth decomposable polynomial circuit and every k; outputs in strictly increasing "
+         "variable-id order followed by c; coefficient rule of the polynomial differential; transfer to numeric "
+         "evaluation by ring homomorphisms) + correspondence: Lean eval of real differentiate() vs derivatives "
+         "computed by the Lean model over truncated power series, compiled under all flags, nested autograd",
+         "Theorems for all circuits/orders; correspondence exact over Rat, ids >= 8, gaps, orders 1-3.",
+         "DESIGN.md 4/C05"),
+ "C14": ("Lean 4 proof (entry formulas of index, outer product/sum, reductions, Kronecker, mixing, polynomial "
+         "product/differential, entrywise ops over the row-major tensor model for every shape and axis; symbolic shape "
+         "= evaluated shape for every well-formed graph; composition; softmax row sums) + correspondence: compiled "
+         "parameter graphs (F = 1..4 folds, optimize on/off) vs Lean PExpr.eval",
+         "Theorems for all shapes/axes; correspondence on random graphs over all node types, exact for the algebraic "
+         "operators.", "DESIGN.md 4/C14"),
  "C06": ("Lean 4 proof (evidence_correct for every tree and observation, scope, concatenate) + correspondence: Lean "
          "eval of real evidence()/concatenate() vs Lean eval of operands; compiled vs compiled-on-overwritten-input",
          "Theorems need no structural hypothesis; correspondence on generated circuits with heterogeneous inputs "
